@@ -1118,65 +1118,70 @@ impl<'a, R: Read + Seek> BlocksToFileReader<'a, R> {
 
 impl<T: Read + Seek> Read for BlocksToFileReader<'_, T> {
     fn read(&mut self, into: &mut [u8]) -> io::Result<usize> {
-        let (remaining, count) = match self.state {
-            BlocksToFileReaderState::Ready => {
-                // Start a new block FileContent
-                match ArchiveFileBlock::from(&mut self.src)? {
-                    ArchiveFileBlock::FileContent { length, id, .. } => {
-                        if id != self.id {
-                            self.move_to_next_block()?;
-                            return self.read(into);
+        // Blocks belonging to other files are skipped in a loop, not by
+        // recursion: their number is controlled by the (untrusted) archive
+        loop {
+            let (remaining, count) = match self.state {
+                BlocksToFileReaderState::Ready => {
+                    // Start a new block FileContent
+                    match ArchiveFileBlock::from(&mut self.src)? {
+                        ArchiveFileBlock::FileContent { length, id, .. } => {
+                            if id != self.id {
+                                self.move_to_next_block()?;
+                                continue;
+                            }
+                            let count = self.src.by_ref().take(length).read(into)?;
+                            let length_usize = usize::try_from(length).map_err(|_| {
+                                std::io::Error::new(
+                                    std::io::ErrorKind::InvalidData,
+                                    "Length conversion failed",
+                                )
+                            })?;
+                            (length_usize - count, count)
                         }
-                        let count = self.src.by_ref().take(length).read(into)?;
-                        let length_usize = usize::try_from(length).map_err(|_| {
-                            std::io::Error::new(
-                                std::io::ErrorKind::InvalidData,
-                                "Length conversion failed",
+                        ArchiveFileBlock::EndOfFile { id, .. } => {
+                            if id != self.id {
+                                self.move_to_next_block()?;
+                                continue;
+                            }
+                            self.state = BlocksToFileReaderState::Finish;
+                            return Ok(0);
+                        }
+                        ArchiveFileBlock::FileStart { id, .. } => {
+                            if id != self.id {
+                                self.move_to_next_block()?;
+                                continue;
+                            }
+                            return Err(Error::WrongReaderState(
+                                "[BlocksToFileReader] Start with a wrong block type".to_string(),
                             )
-                        })?;
-                        (length_usize - count, count)
-                    }
-                    ArchiveFileBlock::EndOfFile { id, .. } => {
-                        if id != self.id {
-                            self.move_to_next_block()?;
-                            return self.read(into);
+                            .into());
                         }
-                        self.state = BlocksToFileReaderState::Finish;
-                        return Ok(0);
-                    }
-                    ArchiveFileBlock::FileStart { id, .. } => {
-                        if id != self.id {
-                            self.move_to_next_block()?;
-                            return self.read(into);
+                        ArchiveFileBlock::EndOfArchiveData => {
+                            return Err(Error::WrongReaderState(
+                                "[BlocksToFileReader] Try to read the end of the archive"
+                                    .to_string(),
+                            )
+                            .into());
                         }
-                        return Err(Error::WrongReaderState(
-                            "[BlocksToFileReader] Start with a wrong block type".to_string(),
-                        )
-                        .into());
-                    }
-                    ArchiveFileBlock::EndOfArchiveData => {
-                        return Err(Error::WrongReaderState(
-                            "[BlocksToFileReader] Try to read the end of the archive".to_string(),
-                        )
-                        .into());
                     }
                 }
+                BlocksToFileReaderState::InFile(remaining) => {
+                    let count = self.src.by_ref().take(remaining as u64).read(into)?;
+                    (remaining - count, count)
+                }
+                BlocksToFileReaderState::Finish => {
+                    return Ok(0);
+                }
+            };
+            if remaining > 0 {
+                self.state = BlocksToFileReaderState::InFile(remaining);
+            } else {
+                // remaining is 0 (> never happens thanks to take)
+                self.state = BlocksToFileReaderState::Ready;
             }
-            BlocksToFileReaderState::InFile(remaining) => {
-                let count = self.src.by_ref().take(remaining as u64).read(into)?;
-                (remaining - count, count)
-            }
-            BlocksToFileReaderState::Finish => {
-                return Ok(0);
-            }
-        };
-        if remaining > 0 {
-            self.state = BlocksToFileReaderState::InFile(remaining);
-        } else {
-            // remaining is 0 (> never happens thanks to take)
-            self.state = BlocksToFileReaderState::Ready;
+            return Ok(count);
         }
-        Ok(count)
     }
 }
 
